@@ -475,6 +475,7 @@ def c19(run):
     r_route.run_psk(run, P)
     r_route.run_event_reset(run, P)
     r_route.run_sni_cache(run, P)
+    r_route.run_establishers(run, P)
     from rules import r_delayq
     r_delayq.run(run, P)
     from rules import r_cnt
